@@ -1,4 +1,4 @@
-import IpcModel.Gen
+import IpcModel.GenOneShot
 /-! C08: one-shot server bootstrap (`OsIpcOneShotServer::new` / `accept`, `OsIpcSender::connect`) over a small kernel model:
 listening sockets bound to names in a temp root, a FIFO backlog of connections, per-connection message queues.
 Names come from a fresh counter (the uniqueness of `mkdtemp` names is an assumption, exercised by the harness).
